@@ -50,6 +50,18 @@ def gen_matrix(rng, n, m, miss_frac, special):
                 f = (1.0 + rng.choice((-6e-4, 4e-4, 7e-4))) / sd
                 for i in range(n):
                     X[i][j] = mu + (X[i][j] - mu) * f
+    if special == "symmetric":       # a column that is exactly symmetric about 0 (its sum and mean are exactly 0)
+        j = rng.randrange(m)
+        half = [rng.randint(1, 400) / 16.0 for _ in range(n // 2)]
+        vals = half + [-v for v in half] + ([0.0] if n % 2 else [])
+        rng.shuffle(vals)
+        for i in range(n):
+            X[i][j] = vals[i]
+    if special == "above_code":      # every column entirely just above (or below minus) the missing-value code: ordinary numbers
+        for j in range(m):
+            sgn = rng.choice((1.0, -1.0))
+            for i in range(n):
+                X[i][j] = sgn * (1.0000005e8 + 2.0 * j + rng.uniform(0.0, 3.0))
     if special == "band":            # level scaling with a column mean between the two guards
         j = rng.randrange(m)
         col = [X[i][j] for i in range(n)]
@@ -117,7 +129,11 @@ def run(ck, rng, tier):
             special = "small_sum"
         elif c < 8:
             special, ty = "near_unit", (1, 1, 2, 3, 1)[c - 3]
-        miss = rng.choice((0.0, 0.0, 0.1, 0.2)) if special != "band" else 0.0
+        elif c < 12:
+            special, ty = "symmetric", (0, 1, 3, 4)[c - 8]
+        elif c < 15:
+            special, ty = "above_code", (4, 4, 1)[c - 12]
+        miss = rng.choice((0.0, 0.0, 0.1, 0.2)) if special not in ("band", "above_code") else 0.0
         if special == "miss_first":
             miss = max(miss, 0.1)
         if special == "band":
@@ -141,6 +157,7 @@ def run(ck, rng, tier):
     if rc != 0 or len(outs) != len(meta):
         ck.broken("driver drv_prep", "rc=%s cases=%d/%d %s" % (rc, len(outs), len(meta), err[-800:]))
         return
+    vf.reuse_scan(ck, "drv_prep", outs, lambda k: {"case": str(meta[k])[:1500]})
     checks = vf.Checks()
     cm, cv = vf.coq_mat, vf.coq_vec
     i = 0
